@@ -1664,7 +1664,10 @@ func runScenario(seed int64, n int, out *bufio.Writer, kind string, suffix strin
 			codes.Unauthenticated, codes.Aborted, codes.OutOfRange, codes.DataLoss}
 		for j := 0; j < 6; j++ {
 			c := cds[(6*(n/16)+j+int(seed))%len(cds)]
-			burst := 1 + r.Intn(2)
+			burst := 1 // a refusal fails the change at once: a second answer of the burst would meet the NEXT change
+			if c == codes.Unavailable || c == codes.Canceled || c == codes.DeadlineExceeded || c == codes.PermissionDenied {
+				burst += r.Intn(2) // transient: the same change meets the whole burst
+			}
 			for i := 0; i < burst; i++ {
 				h.policy[t] = append(h.policy[t], c)
 			}
